@@ -141,6 +141,10 @@ def subj_selector(b, kind, pattern):
         p["progress_bar"] = True
     if rng.random() < 0.1:
         p["full"] = True
+    elif rng.random() < 0.25:
+        t = rng.choice(["absolute", "relative", "relative"])
+        p["score_threshold_type"] = t
+        p["score_threshold"] = 10 ** rng.uniform(-3, -0.3) if (t == "relative" or fam in ("cur", "pcovcur")) else 10 ** rng.uniform(-3, 1)
     xa, xb = b.ref(XA, "data"), b.ref(XB, "data")
     ya = b.ref(b.y_of(XA), "target")
     yb = b.ref(b.y_of(XB), "target")
